@@ -41,6 +41,7 @@ def plan(tier, seed):
         t += wp.enum_tasks(3, 4, 1, "all", seed)
         t += wp.enum_tasks(4, 16, 2, "all", seed)
         t += wp.enum_tasks(5, 64, 1, 2, seed)
+        t += wp.enum_tasks(6, 255, 1, 1, seed, frac=0.015)     # uniform sample of all six-qubit groups
         t += wp.member_tasks(5, 6, 16, seed, plain_graph_every=9)
         t += wp.member_tasks(6, 8, 96, seed, plain_graph_every=9)
     for n, cnt, per in ((4, 8, 24), (5, 8, 24), (6, 32, 120)):
